@@ -22,7 +22,8 @@ _reg(SchedProp('C02', ['Ea.C02.only_running_queued_once', 'Ea.C02.not_running_no
                        'Ea.step_mono', 'Ea.C02.mono_reachable', 'Ea.C02.one_execution_per_announcement',
                        'Ea.C02.reported_run_time_is_new']))
 _reg(SchedProp('C07', ['Ea.C07.status_next_run', 'Ea.C07.finished_terminal', 'Ea.C07.callbacks_once',
-                       'Ea.C07.set_next_run_callbacks', 'Ea.step_frozen', 'Ea.C07.not_running_record_frozen']))
+                       'Ea.C07.set_next_run_callbacks', 'Ea.step_frozen', 'Ea.C07.not_running_record_frozen',
+                       'Ea.step_storeInv', 'Ea.C07.storeInv_reachable', 'Ea.C07.store_exact']))
 _reg(SchedProp('C08', ['Ea.C08.reset_announces', 'Ea.C08.reset_accepted', 'Ea.C08.countdown_fire_pauses',
                        'Ea.C08.once_finishes', 'Ea.C08.queued_once', 'Ea.create_once_queued', 'Ea.reset_queued',
                        'Ea.sleepLoop_executes', 'Ea.C08.once_runs_at_its_instant',
